@@ -1,5 +1,6 @@
 import AgdbStorage.Model.Wal
 import AgdbStorage.Model.Storage
+import AgdbStorage.Model.Readers
 /-
 Line-protocol driver helpers shared by the streams of this project.
 -/
@@ -171,6 +172,42 @@ def stStep (d : StDrv) (toks : List String) : StDrv × String :=
       match Storage.openImage s.data with
       | .ok s' => ({ st := some s' }, "ok " ++ stDump s')
       | .error e => (d, e.str)
+  | _, _ => (d, "bad-op")
+
+end AgdbStorage
+
+namespace AgdbStorage
+
+/-! ### stream `rd`: concurrent readers -/
+
+structure RdDrv where
+  st : Option RState := none
+
+def rdRes : Option Bytes → String
+  | some b => toHex b
+  | none => "err"
+
+def rdStep (d : RdDrv) (toks : List String) : RdDrv × String :=
+  match toks, d.st with
+  | ["file", hx], _ =>
+    match ofHex hx with
+    | some b => ({ st := some (RState.init b 0) }, "ok")
+    | none => (d, "bad-op")
+  | _, none => (d, "bad-op")
+  | ["start", t, p, n], some s =>
+    match t.toNat?, p.toNat?, n.toNat? with
+    | some t, some p, some n => ({ st := some (s.step (.start t ⟨p, n⟩)) }, "ok")
+    | _, _, _ => (d, "bad-op")
+  | ["step", t], some s =>
+    match t.toNat? with
+    | some t =>
+      let s' := s.step (.step t)
+      if s'.log.length > s.log.length then
+        match s'.log.head? with
+        | some (u, _, res) => ({ st := some s' }, s!"done {u} {rdRes res}")
+        | none => ({ st := some s' }, "ok")
+      else ({ st := some s' }, "ok")
+    | none => (d, "bad-op")
   | _, _ => (d, "bad-op")
 
 end AgdbStorage
